@@ -1241,6 +1241,21 @@ func main() {
 			emit("JUMP/JUMPI/PC/JUMPDEST/GAS", ep0, 100000, a.finish(), nil)
 		}
 	}
+	for _, k := range []int{1021, 1022, 1023, 1024} { // the stack limit: k items, then one instruction of every (pops, pushes) shape
+		for _, opb := range []byte{0x01, 0x08, 0x15, 0x50, 0x52, 0x58, 0x5b, 0x60, 0x80, 0x8f, 0x90, 0x9f, 0x35, 0x37} {
+			a := newAsm()
+			a.pushN(1)
+			for i := 1; i < k; i++ {
+				a.op(0x80)
+			}
+			a.op(opb)
+			if opb == 0x60 {
+				a.op(0x07)
+			}
+			a.op(0x00)
+			emit("stacklimit", ep0, 100000, a.finish(), nil)
+		}
+	}
 	for _, ep := range epochs[1:] { // a few of each in the other epochs (validity of REVERT / RETURNDATA* differs)
 		for _, opb := range []byte{0x3d, 0x3e, 0xfd, 0x35, 0x37, 0x39, 0x51, 0x52, 0x53, 0x56, 0x57, 0x58, 0x59, 0x5a, 0x5b, 0x50, 0x80, 0x90, 0x60, 0x7f, 0x20, 0xf3} {
 			a := newAsm()
